@@ -37,28 +37,32 @@ let jn l = if l = [] then "_" else String.concat ";" l
 let show_dump c =
   let ents = List.map (fun r ->
     let fl = (if r.r_reload then 1 else 0) + (if r.r_pending then 4 else 0) + (if r.r_ready then 8 else 0) in
-    Printf.sprintf "%s,%s,%s,%d,%d,%d,%d,%s" (show_verid (r_verid r)) (hex_of_bytes r.r_start) (hex_of_bytes r.r_end)
-      (int_of_nat r.r_work) (if r.r_expired then 1 else 0) (ni r.r_reason) fl (show_peers r.r_peers)) c.c_sorted in
+    Printf.sprintf "%s,%s,%s,%d,%d,%d,%d,%s,%s" (show_verid (r_verid r)) (hex_of_bytes r.r_start) (hex_of_bytes r.r_end)
+      (int_of_nat r.r_work) (if r.r_expired then 1 else 0) (ni r.r_reason) fl (show_peers r.r_peers)
+      (String.concat "/" (List.map (fun x -> string_of_int (ni x)) r.r_sepochs))) c.c_sorted in
   let regs = List.sort compare (List.map (fun (v, s) -> show_verid v ^ ">" ^ hex_of_bytes s) c.c_regions) in
   let lat = List.sort compare (List.map (fun (id, (v, cf)) -> Printf.sprintf "%d>%d,%d" (ni id) (ni v) (ni cf)) c.c_latest) in
-  jn ents ^ "\t" ^ jn regs ^ "\t" ^ jn lat
+  let se = List.sort compare (List.filter_map (fun (id, e) -> if ni e = 0 then None else Some (Printf.sprintf "%d>%d" (ni id) (ni e))) c.c_sepochs) in
+  jn ents ^ "\t" ^ jn regs ^ "\t" ^ jn lat ^ "\t" ^ jn se
 
 (* rebuild a model state from an implementation dump (used to resynchronise after a mismatch) *)
-let parse_dump ents regs lat =
+let parse_dump ents regs lat ses =
   let ent s = match split_on ',' s with
-    | [id; ver; conf; st; en; work; exp; reason; fl; peers] ->
+    | [id; ver; conf; st; en; work; exp; reason; fl; peers; eps] ->
         let fl = int_of_string fl in
         { r_id = nn (int_of_string id); r_start = bytes_of_hex st; r_end = bytes_of_hex en; r_ver = nn (int_of_string ver);
           r_conf = nn (int_of_string conf); r_peers = parse_peers peers; r_work = nat (int_of_string work);
           r_expired = (exp = "1"); r_reason = nn (int_of_string reason);
-          r_reload = (fl land 1 <> 0); r_pending = (fl land 4 <> 0); r_ready = (fl land 8 <> 0) }
+          r_reload = (fl land 1 <> 0); r_pending = (fl land 4 <> 0); r_ready = (fl land 8 <> 0);
+          r_sepochs = (if eps = "" then [] else List.map (fun x -> nn (int_of_string x)) (split_on '/' eps)) }
     | _ -> raise (Parse ("ent " ^ s)) in
   let reg s = match split_on '>' s with [v; st] -> (parse_verid v, bytes_of_hex st) | _ -> raise (Parse s) in
   let la s = match split_on '>' s with
     | [id; vc] -> (match split_on ',' vc with [v; c] -> (nn (int_of_string id), (nn (int_of_string v), nn (int_of_string c))) | _ -> raise (Parse s))
     | _ -> raise (Parse s) in
   let l f s = if s = "_" then [] else List.map f (split_on ';' s) in
-  { c_sorted = l ent ents; c_regions = l reg regs; c_latest = l la lat }
+  let sp s = match split_on '>' s with [id; e] -> (nn (int_of_string id), nn (int_of_string e)) | _ -> raise (Parse s) in
+  { c_sorted = l ent ents; c_regions = l reg regs; c_latest = l la lat; c_sepochs = l sp ses }
 
 (* ---- PD oracle from the logged Q lines ---- *)
 let show_req q = match q with
@@ -87,8 +91,9 @@ let res_loc r = match r with Ok x -> "ok " ^ show_loc x | Err _ -> "err"
 let res_locs r = match r with Ok x -> "ok " ^ show_locs x | Err _ -> "err"
 
 (* returns (result string, new cache, number of PD calls used) *)
+let txn_mode = ref false
 let run_op (c : cache) (op : string) (args : string list) (qs : string list array) =
-  let pd = make_pd qs and budget = nat (Array.length qs) and t0 = O in
+  let pd = (if !txn_mode then codec_pd (make_pd qs) else make_pd qs) and budget = nat (Array.length qs) and t0 = O in
   let a i = List.nth args i in
   let fin ((r, c1), t1) show = (show r, c1, int_of_nat t1) in
   match op with
@@ -122,7 +127,8 @@ let run_op (c : cache) (op : string) (args : string list) (qs : string list arra
        | Some r -> ("ok", upd_entry c r (set_flags (fun x -> x.r_reload || bits land 1 <> 0) (fun x -> x.r_pending || bits land 4 <> 0)
                                            (fun x -> x.r_ready || bits land 8 <> 0)), 0)
        | None -> ("model: no such entry", c, 0))
-  | "clear" -> ("ok", empty_cache, 0)
+  | "clear" -> ("ok", { empty_cache with c_sepochs = c.c_sepochs }, 0)
+  | "sendfail" -> ("ok", on_send_fail c (parse_verid (a 0)) (nat (int_of_string (a 1))) (a 2 = "1"), 0)
   | "gc" -> ("ok", gc c, 0)
   | "uplead" ->
       let leader = if a 1 = "none" then None else Some (parse_peer (a 1)) in
@@ -132,9 +138,9 @@ let run_op (c : cache) (op : string) (args : string list) (qs : string list arra
        | Ok (rt, c1) -> ((if rt then "ok retry" else "ok"), c1, 0)
        | Err _ -> ("err", c, 0))
   | "ctx" ->
-      ((match rpc_ctx c (parse_verid (a 0)) with
-        | Some (r, (pid, sid)) -> Printf.sprintf "ok %d:%d %d" (ni pid) (ni sid) (int_of_nat r.r_work)
-        | None -> "none"), c, 0)
+      (match rpc_ctx c (parse_verid (a 0)) with
+       | (Some (r, (pid, sid)), c1) -> (Printf.sprintf "ok %d:%d %d" (ni pid) (ni sid) (int_of_nat r.r_work), c1, 0)
+       | (None, c1) -> ("none", c1, 0))
   | "u_merge" ->
       let cs = List.map new_region (parse_descs (a 0)) and us = List.map new_region (parse_descs (a 1)) in
       ("ok " ^ show_locs (merge_all cs us), c, 0)
@@ -161,7 +167,7 @@ let () =
       print_endline (String.concat "\t" ([kind; !seqid; idx; op] @ [String.concat " " args] @ extra)) in
   read_lines (fun line ->
     match split_tab line with
-    | "SEQ" :: cls :: seed :: _ -> incr seqs; seqid := cls ^ "\t" ^ seed; seq_bad := false; cache := empty_cache; cur_op := None; last_ctx := None
+    | "SEQ" :: cls :: seed :: rest -> txn_mode := (rest = ["txn"]); incr seqs; seqid := cls ^ "\t" ^ seed; seq_bad := false; cache := empty_cache; cur_op := None; last_ctx := None
     | "T" :: ds :: _ -> truth := (try parse_descs ds with _ -> [])
     | "X" :: ev :: _ when String.length ev > 6 && String.sub ev 0 6 = "reply " ->
         (* the store's answer as the model's store_reply (Converge.v) predicts it from the ground truth *)
@@ -185,13 +191,13 @@ let () =
     | "Q" :: rest -> qs := rest :: !qs
     | "R" :: r :: _ -> result := r
     | "R" :: [] -> result := ""
-    | "D" :: ents :: regs :: lat :: _ ->
-        let impl_dump = ents ^ "\t" ^ regs ^ "\t" ^ lat in
+    | "D" :: ents :: regs :: lat :: ses :: _ ->
+        let impl_dump = ents ^ "\t" ^ regs ^ "\t" ^ lat ^ "\t" ^ ses in
         (match !cur_op with
          | None ->
              if show_dump !cache <> impl_dump then begin
                report "MISMATCH-STATE" "-" "-" [] ["impl=" ^ impl_dump; "model=" ^ show_dump !cache];
-               cache := parse_dump ents regs lat end
+               cache := parse_dump ents regs lat ses end
          | Some (idx, op, args) ->
              incr cases;
              let qarr = Array.of_list (List.rev !qs) in
@@ -211,7 +217,7 @@ let () =
                 (try last_ctx := Some (parse_verid (List.nth args 0), parse_peer (List.nth (split_on ' ' !result) 1)) with _ -> last_ctx := None)
               else if op <> "ctx" then last_ctx := None);
              if ok_res && ok_pd && mdump = impl_dump then cache := c1
-             else cache := (try parse_dump ents regs lat with _ -> c1);
+             else cache := (try parse_dump ents regs lat ses with _ -> c1);
              cur_op := None)
     | _ -> ());
   Printf.printf "STATS\tcases=%d\tmismatches=%d\tseqs=%d\tbadseqs=%d\treplies=%d\n" !cases !mism !seqs !badseq !replies;
